@@ -18,7 +18,7 @@ from hypothesis import strategies as st
 
 from vlib import arrays as A
 from vlib import linops as LO
-from vlib.runner import Part, R
+from vlib.runner import Part, R, make_sweep
 
 PROPERTY = "C02"
 RULE = ("(1) generated operator programs (as C01): dense columns A(i e_j) == i A(e_j), A(a x+y) == a A(x)+A(y) for "
@@ -875,7 +875,26 @@ def st_linear_mri(draw):
     return c
 
 
+def function_grid():
+    """every (function / Prox row) x memory layout x dtype x number of dims, enumerated completely in every tier"""
+    out = []
+    for name in FUNC_NAMES:
+        for layout in ("c", "strided", "fortran", "reshape-view"):
+            for dt in ("complex128", "complex64", "float64", "float32"):
+                for nd in (1, 2, 3):
+                    shape = [3, 4, 2][:nd] if name not in ("mri.apply_tseg", "mri.tseg_off_res_b_ct") else [4, 4]
+                    out.append({"fn": name, "shape": shape, "dtype": dt, "cdtype": "complex64" if dt in ("complex64", "float32") else "complex128",
+                                "seed": 17 + nd, "flag": (len(out) % 2 == 0), "layout": layout})
+    return out
+
+
+def extra_coverage(tier):
+    return {"exhaustive_subdomains": ["functions / Prox rows: every row x {C, strided, Fortran, reshape-view} x 4 dtypes x 1-3 dims (%d calls, part "
+                                      "'functions-grid')" % len(function_grid())]}
+
+
 PARTS = [
+    make_sweep("functions-grid", function_grid, check_function),
     Part("linear", check_linear, {"quick": 2700, "thorough": 40000}, strategy=st_linear),
     Part("linear-mri", check_linear, {"quick": 450, "thorough": 6000}, strategy=st_linear_mri),
     Part("history", check_history, {"quick": 960, "thorough": 12000}, machine=make_machine, kind="stateful", steps=25),
